@@ -37,7 +37,7 @@ NoLower == 0..(Len(Commodities) - 1)
 RandPost(x) ==
     LET hasAmt  == ~Coin(4, x)
         hasCost == hasAmt /\ Coin(5, x)
-        hasAsrt == hasAmt /\ Coin(6, x)
+        hasAsrt == IF hasAmt THEN Coin(6, x) ELSE Coin(5, x)      \* an assertion may stand without an amount
     IN
     [ind |-> Pick({1, 2, 4, 4, 4, 8, 0}), st |-> Pick({"", "", "", "*", "!"}), kind |-> Pick({"real", "real", "real", "paren", "bracket"}),
      acct |-> Pick(1..Len(Accounts)), gap |-> Pick({2, 2, 3, 6}),
